@@ -853,3 +853,18 @@ PROPS["C14"]["claim"] = PROPS["C14"]["claim"] + " An overwrite that moves a valu
 
 # ---------------------------------------------------------------- U16b (known finding: migration misses keys that live in a queued index)
 M_COLUMN.harnesses.append(H("u16b_index_walk_reaches_queued_index_tables", "U16", kind="bounded", shape="HashColumn::iter_index_internal on a column with two older index tables queued for migration; last chunk of the current index", bound="one chunk of the current index; IndexTable::entries by contract (empty pages)"))
+
+# ---------------------------------------------------------------- U55 (Verus: which log files Log::open queues for replay, in which order)
+UNIT_META["log_open"] = {"functions": ["log::Log::open (fragment: the scan step for one file named log<N>)", "log::Log::open (fragment: ordering of the replay queue and first id for new log files)"],
+                         "assumes": ["the directory scan itself (read_dir, file-name parsing on str) is outside the fragments; its loop invariant (every queued file id <= max_log_id) is proved for one step and assumed across steps",
+                                     "Log::open_log_file (reads the first record id of a file), Log::log_path and std::fs::remove_file are contracts over an uninterpreted file system",
+                                     "`<[T]>::sort_by_key(|pattern| key)` is a contract: the closure becomes the key projection of the contract by a shape rewrite that keeps its pattern and key expression verbatim; VecDeque::is_empty by assume_specification"]}
+for _p in ("C13", "C03"):
+    PROPS[_p]["verus_units"] = list(PROPS[_p].get("verus_units", [])) + ["log_open"]
+PROPS["C13"]["claim"] = PROPS["C13"]["claim"] + " Which files are replayed, in which order (Verus, unbounded over the number of log files; file system by contract): Log::open queues a log file that starts with a record under the id of that record and deletes one that does not; the replay queue is ordered by the first record id of each file -- not by file id, which says nothing about age once files are recycled --, ordering loses no file, and new log files get ids above every file waiting for replay."
+PROPS["C03"]["claim"] = PROPS["C03"]["claim"] + " Reopen (Verus, unbounded over the number of log files): Log::open orders the files to replay by the first record id each holds, so that the sequence gate of enact_logs (which discards everything after the first out-of-sequence record) sees the synced records in commit order."
+PROPS["C13"]["does_not_cover"] = [x for x in PROPS["C13"]["does_not_cover"] if "Log::open" not in x] + ["the directory scan of Log::open (read_dir, parsing log<N> names) and the first-record-id read of open_log_file"]
+PROPS["C03"]["does_not_cover"] = [x.replace("reopen replay (C13 covers the sequence gate only)", "reopen replay beyond the replay-queue order and the sequence gate (C13)") for x in PROPS["C03"]["does_not_cover"]]
+PROPS["C13"]["technique"] = PROPS["C13"]["technique"] + "; Verus contract on the replay-queue construction of Log::open (fragments extracted on every run)"
+if "Verus" not in PROPS["C03"]["technique"]:
+    PROPS["C03"]["technique"] = PROPS["C03"]["technique"] + "; Verus contract on the replay-queue construction of Log::open (fragments extracted on every run)"
